@@ -74,10 +74,10 @@ func (c *Ctx) confirmLemmaFailures(results []lemmaResult, what func(id string) s
 		confirmed := false
 		if err != nil {
 			// the native process itself died: for "escaping-panic" obligations that is the confirmation
-			confirmed = strings.Contains(j.f.ID, "escaping-panic")
+			confirmed = strings.Contains(j.f.ID, "escaping-panic") || strings.Contains(j.f.ID, "host-panic")
 			resp.HostPanic = strings.TrimSpace(out)
 		} else if resp.HostPanic != "" {
-			confirmed = strings.Contains(j.f.ID, "escaping-panic")
+			confirmed = strings.Contains(j.f.ID, "escaping-panic") || strings.Contains(j.f.ID, "host-panic")
 		} else {
 			for _, id := range resp.Failed {
 				if id == j.f.ID {
